@@ -154,13 +154,19 @@ def write_vcf(
         file=f,
     )
     for m in sorted(all_mutations):
-        ref = m.op[0]  # TODO: should be genome nucleotide, not the RefSeq nucleotide?!
-        if m.op[1] == ">":
-            alt = m.op[2]
+        pos = m.pos
+        if ">" in m.op:
+            l, r = m.op.split(">")
+            ref = "".join(gene[pos + i] if c == "." else c for i, c in enumerate(l))
+            alt = "".join(gene[pos + i] if c == "." else c for i, c in enumerate(r))
         elif m.op[:3] == "ins":
+            ref = gene[pos]
             alt = ref + m.op[3:]
+        elif "ins" in m.op[3:]:
+            ref, alt = m.op[3:].split("ins")
         else:
-            ref, alt = ".", f"{m.op[3:]}, ."  # TODO: this is wrong?!
+            pos -= 1  # anchor a deletion at the preceding base
+            ref, alt = gene[pos] + m.op[3:], gene[pos]
 
         fm = gene.get_functional(m)
         fm = fm.replace(" ", "_").replace("\t", "_").replace(";", "_") if fm else "none"
@@ -196,7 +202,7 @@ def write_vcf(
         print(
             pattern.format(
                 chrom=gene.chr,
-                pos=m.pos + 1,
+                pos=pos + 1,
                 id=gene.get_rsid(m, default=False),
                 ref=ref,
                 alt=alt,
